@@ -4,6 +4,7 @@ C10 — the import hook only adds decorators: everything else in the module is u
 import JaxVerif.Model.HookAst
 import JaxVerif.Generated.Hook
 import JaxVerif.Lemmas.HookAst
+import JaxVerif.Generated.HookCode
 
 namespace JV
 
@@ -63,5 +64,30 @@ private def sample : Node :=
 example : eraseModule (transformModule sample) = sample := by decide
 example : countKind (fun k => k == .jaxtypedDecorator) (transformModule sample) = 4 := by decide
 example : countKind (fun k => k == .importJaxtyping) (transformModule sample) = 1 := by decide
+
+/-! ### the visitor methods as written today -/
+
+theorem transform_decoNode (l : Loc) : transform (decoNode l) = decoNode l := by
+  simp [decoNode, transform, transformList]
+
+theorem transformList_append (a b : List Node) : transformList (a ++ b) = transformList a ++ transformList b := by
+  induction a with
+  | nil => simp [transformList]
+  | cons x xs ih => simp [transformList, ih]
+
+/-- **the three visitor methods, translated from the current source on this run, are the model's transformation**: on
+    EVERY function definition, class definition and module (any location, any decorators, any children)
+    `visit_FunctionDef` / `visit_ClassDef` / `visit_Module` build the decorator, give it the node's location, put it last /
+    first, visit decorators and children with the same visitor (`generic_visit` = the model's `transformList`), leave the
+    parent stack as they found it and return the node — exactly `transform` / `transformModule`. `C10_erase`, `C10_count`,
+    `C10_import_position` and `C10_positions` are therefore statements about the code the source contains. -/
+theorem C10_source_visitors (l : Loc) (decos kids : List Node) :
+    runVisitor Generated.visitFunctionDefCode (.mk .funcDef l decos kids) = some (transform (.mk .funcDef l decos kids)) ∧
+    runVisitor Generated.visitClassDefCode (.mk .classDef l decos kids) = some (transform (.mk .classDef l decos kids)) ∧
+    runVisitor Generated.visitModuleCode (.mk .module l decos kids) = some (transformModule (.mk .module l decos kids)) := by
+  refine ⟨?_, ?_, ?_⟩
+  · simp [runVisitor, Generated.visitFunctionDefCode, HStmt.run, transform, transformList_append, transformList, transform_decoNode]
+  · simp [runVisitor, Generated.visitClassDefCode, HStmt.run, transform, transformList_append, transformList, transform_decoNode]
+  · simp [runVisitor, Generated.visitModuleCode, HStmt.run, transformModule, transformList_append, transformList, transform_decoNode]
 
 end JV
